@@ -66,6 +66,8 @@ pub fn report_to_result(sc: &Scenario, rep: RunReport, restarted_only: bool) -> 
     }
     r.add(&format!("sched_{:?}", sc.sched).to_lowercase(), 1);
     r.add(&format!("clients_{}", sc.clients.len()), 1);
+    r.add(&format!("graph_edges_{:02}", sc.spec.edges.len()), 1);
+    r.add(&format!("graph_loops_{}", sc.spec.loops()), 1);
     let nontrivial = if restarted_only {
         s.restarts > 0
     } else {
